@@ -195,6 +195,12 @@ def gen_c17(rnd, n, thorough=False):
             # (half of the time against a server in a process of its own that was given a relative base directory)
             lines.append("conhttp s/i1/f0.wsp %d @%s" % (rnd.randint(3, 8), rnd.pick(['', ' rel'])))
         cases.append({'id': 'c17-%d' % c, 'lines': lines, 'tags': {'kind': kind}})
+    # many overlapping requests for different parts (archives, windows, raw dumps) of ONE file of several pages
+    big = [(1, 2000), (10, 600)]
+    ll = ["create s/i1/big.wsp %s m 2 x 00000000" % fmt_layout(big),
+          "many s/i1/big.wsp -1 @ %d %s" % (400, " ".join("@-%d %016x" % (q * 5, fbits(float(q) + 0.25)) for q in range(400))),
+          "sync s/i1/big.wsp", "drop s/i1/big.wsp", "conhttp s/i1/big.wsp 3 @ rounds=%d" % (60 if not thorough else 400)]
+    cases.append({'id': 'c17-onefile', 'lines': ll, 'tags': {'kind': 'server_one_file_many_requests'}})
     return cases
 
 
